@@ -267,15 +267,29 @@ def replay_one(menu, rec, final=True, pair_only=False):
     return stats
 
 
-def impl_replay(job):
-    out = []
-    for rec in job["recs"]:
+def _guarded(menu, rec, final):
+    """one history in a forked child (watchdog pattern of c09): a crash of the interpreter is an observation about
+    THIS history, a run that does not end has unbounded dynamics and is skipped (counted), not judged"""
+    from .c09 import _forked
+
+    def fn():
         try:
-            out.append(replay_one(job["menu"], rec, final=job.get("final", True)))
+            return replay_one(menu, rec, final=final)
         except BaseException as e:  # noqa
             import traceback
-            out.append({"harness_exception": repr(e), "tb": traceback.format_exc()[-2500:]})
-    return {"out": out}
+            return {"harness_exception": repr(e), "tb": traceback.format_exc()[-2500:]}
+    res = _forked(fn, 60.0)
+    if res.get("skipped_unbounded"):
+        return {"ok": True, "skipped": 1}
+    if res.get("what") == "crash":
+        return {"ok": False, "key": "crash:%s" % rec["fam"], "what": "the interpreter died while this history was replayed", "step": len(rec["steps"])}
+    if res.get("what") == "exception" and "key" not in res:
+        return {"harness_exception": res.get("detail", "?"), "tb": ""}
+    return res
+
+
+def impl_replay(job):
+    return {"out": [_guarded(job["menu"], rec, job.get("final", True)) for rec in job["recs"]]}
 
 
 # ------------------------------------------------------------------ driver
@@ -332,7 +346,7 @@ def judge(v, jobs, results, counters):
             if "harness_exception" in got:
                 raise common.MachineryError("%s harness failed: %s\n%s" % (PROP, got["harness_exception"], got.get("tb", "")))
             if got.get("ok"):
-                for key in ("steps", "sims", "fresh_cmp", "refusals", "pairs", "drift", "final_modes"):
+                for key in ("steps", "sims", "fresh_cmp", "refusals", "pairs", "drift", "final_modes", "skipped"):
                     counters[key] = counters.get(key, 0) + got.get(key, 0)
                 counters["ok"] = counters.get("ok", 0) + 1
                 counters["stopped"] = counters.get("stopped", 0) + got.get("stopped", 0)
@@ -382,6 +396,7 @@ def run(tier):
            "steps_projected_and_compared": counters.get("steps", 0), "simulations_in_histories": counters.get("sims", 0),
            "simulations_compared_with_fresh_model": counters.get("fresh_cmp", 0), "refusals_replayed": counters.get("refusals", 0),
            "final_mode_checks": counters.get("final_modes", 0), "design_level_drift": counters.get("drift", 0),
+           "histories_skipped_by_watchdog": counters.get("skipped", 0),
            "observations_not_judged": counters.get("obs", {}), "histories_cut_at_an_unjudged_step": counters.get("stopped", 0),
            "simulations_through_rebound_interface_not_judged": counters.get("not_judged_sims", 0),
            "checker_cmd": "tlc LifecycleGen (INVARIANTS %s; PROPERTIES %s; VIEW View)" % (" ".join(INVS), " ".join(PROPS))}
